@@ -462,6 +462,9 @@ def _resize(net, op, factor=2, align=False, half=False):
 
 
 inst("resize_nn2")(lambda n: _resize(n, "RESIZE_NEAREST_NEIGHBOR"))
+inst("resize_nn2_ac", "t")(lambda n: _resize(n, "RESIZE_NEAREST_NEIGHBOR", align=True))
+inst("resize_nn4_ac", "t")(lambda n: _resize(n, "RESIZE_NEAREST_NEIGHBOR", factor=4, align=True))
+inst("resize_nn2_hp", "t")(lambda n: _resize(n, "RESIZE_NEAREST_NEIGHBOR", half=True))
 inst("resize_bl2", "t")(lambda n: _resize(n, "RESIZE_BILINEAR"))
 inst("resize_bl2_ac", "t")(lambda n: _resize(n, "RESIZE_BILINEAR", align=True))
 inst("resize_bl2_hp", "t")(lambda n: _resize(n, "RESIZE_BILINEAR", half=True))
